@@ -73,8 +73,15 @@ def oct2bitstore(octstring: str) -> BitStore:
     return BitStore(ba)
 
 
+def _to_int(i: Union[str, int, float]) -> int:
+    try:
+        return int(i)
+    except OverflowError:
+        raise bitstring.CreationError(f"Cannot convert {i} to an integer.")
+
+
 def ue2bitstore(i: Union[str, int]) -> BitStore:
-    i = int(i)
+    i = _to_int(i)
     if i < 0:
         raise bitstring.CreationError("Cannot use negative initialiser for unsigned exponential-Golomb.")
     if i == 0:
@@ -89,7 +96,7 @@ def ue2bitstore(i: Union[str, int]) -> BitStore:
 
 
 def se2bitstore(i: Union[str, int]) -> BitStore:
-    i = int(i)
+    i = _to_int(i)
     if i > 0:
         u = (i * 2) - 1
     else:
@@ -98,14 +105,14 @@ def se2bitstore(i: Union[str, int]) -> BitStore:
 
 
 def uie2bitstore(i: Union[str, int]) -> BitStore:
-    i = int(i)
+    i = _to_int(i)
     if i < 0:
         raise bitstring.CreationError("Cannot use negative initialiser for unsigned interleaved exponential-Golomb.")
     return BitStore('1' if i == 0 else '0' + '0'.join(bin(i + 1)[3:]) + '1')
 
 
 def sie2bitstore(i: Union[str, int]) -> BitStore:
-    i = int(i)
+    i = _to_int(i)
     if i == 0:
         return BitStore('1')
     else:
@@ -216,10 +223,7 @@ def mxint2bitstore(f: Union[str, float]) -> BitStore:
 
 
 def int2bitstore(i: int, length: int, signed: bool) -> BitStore:
-    try:
-        i = int(i)
-    except OverflowError:
-        raise bitstring.CreationError(f"Cannot convert {i} to an integer.")
+    i = _to_int(i)
     try:
         x = BitStore(bitarray.util.int2ba(i, length=length, endian='big', signed=signed))
     except OverflowError as e:
